@@ -28,7 +28,7 @@ def one(patch):
 
 
 def main():
-    patches = sys.argv[1:] or sorted(glob.glob(os.path.join(HERE, 'equivalents', '*', '*.patch')))
+    patches = [os.path.abspath(p) for p in sys.argv[1:]] or sorted(glob.glob(os.path.join(HERE, 'equivalents', '*', '*.patch')))
     bad = 0
     with ThreadPoolExecutor(max_workers=int(os.environ.get('EQX_WORKERS', '8'))) as ex:
         for res in ex.map(one, patches):
